@@ -1,38 +1,51 @@
 // C32 — TLS endpoints survive arbitrary peer behaviour.
 //
 // Engine E4: real zcrypto client <-> real zcrypto server over the deterministic
-// tlsx transport; the wire-fault menu is applied at every position of the
-// baseline transcript of each configuration (both directions, so both roles
-// face a corrupted peer), plus exhaustive short raw byte streams against each
-// role. Oracle: no panic in any call, and every call returns once the
-// transport is closed (blocking is resolved structurally by the transport's
-// stall detection; a wall-clock net only flags suspects, which are re-run).
+// tlsx transport. Four families of peer behaviour are enumerated:
+//
+//	(1) wire faults: the fault menu at every position of the baseline transcript
+//	    of each configuration, both directions (main.go: faultMenu);
+//	(2) keyed faults: every PROTECTED record is opened in flight with the secrets
+//	    of Config.KeyLogWriter, the plaintext edit menu is applied to the message
+//	    inside and the result re-sealed for the receiver, so that it authenticates
+//	    and reaches the parsers behind the record layer (keyed.go, tlsx/keyed.go);
+//	(3) raw peers: exhaustive short byte streams, and every record-boundary prefix
+//	    of a genuine transcript followed by each insert of the menu and EOF;
+//	(4) single special configurations (SSLv3 requested).
+//
+// Oracle: no panic in any call, and every call returns once the transport is
+// closed (blocking is resolved structurally by the transport's stall detection;
+// a wall-clock net only flags suspects, which are re-run). The cases are executed
+// by worker subprocesses: a worker that dies (Go "fatal error", an unrecovered
+// panic in a goroutine the harness did not start, a runtime abort) is a
+// violation with the case it was executing as witness, not an incomplete run.
 package main
 
 import (
 	"encoding/json"
 	"fmt"
 	"io"
+	"os"
 	"runtime"
+	"sort"
 	"strings"
 	"sync"
-	"sync/atomic"
 	"time"
 
 	"github.com/zmap/zcrypto/tls"
-	"github.com/zmap/zcrypto/x509"
 	"verifmc/internal/ev"
 	"verifmc/internal/tlsx"
 )
 
 type conf struct {
-	name   string
-	key    string // server leaf key fixture
-	vers   uint16
-	suites []uint16
-	cauth  bool // client certificate requested+required
-	resume bool // baseline is the second (resuming) connection
-	zscan  bool // zcrypto scanning extras on the client
+	name    string
+	key     string // server leaf key fixture
+	vers    uint16
+	suites  []uint16
+	cauth   bool   // client certificate requested+required
+	resume  bool   // baseline is the second (resuming) connection
+	zscan   bool   // zcrypto scanning extras on the client
+	feature string // "", "external-ch", "fingerprint": zcrypto-only ClientHello construction paths
 }
 
 func confs(thorough bool) []conf {
@@ -48,6 +61,8 @@ func confs(thorough bool) []conf {
 	add(conf{name: "tls12-ecdhe-ecdsa-resumed", key: "p256", vers: v12, suites: []uint16{tls.TLS_ECDHE_ECDSA_WITH_AES_128_GCM_SHA256}, resume: true})
 	add(conf{name: "tls13-ed25519-resumed", key: "ed-srv-leaf", vers: v13, resume: true})
 	add(conf{name: "tls12-ecdhe-rsa-zscan", key: "rsa2048", vers: v12, suites: []uint16{tls.TLS_ECDHE_RSA_WITH_AES_256_GCM_SHA384}, zscan: true})
+	add(conf{name: "tls12-external-clienthello", key: "p256", vers: v12, suites: []uint16{tls.TLS_ECDHE_ECDSA_WITH_AES_128_GCM_SHA256}, feature: "external-ch"})
+	add(conf{name: "tls12-fingerprint-certsonly", key: "rsa2048", vers: v12, suites: []uint16{tls.TLS_ECDHE_RSA_WITH_AES_128_GCM_SHA256}, feature: "fingerprint"})
 	if thorough {
 		add(conf{name: "tls13-rsa", key: "rsa2048", vers: v13})
 		add(conf{name: "tls13-ecdsa-clientauth", key: "p256", vers: v13, cauth: true})
@@ -91,7 +106,26 @@ type outcome struct {
 	streams [2][]byte
 }
 
-func mkConfigs(cf conf, seed string) (*tls.Config, *tls.Config) {
+// externalCH is the ClientHello handshake message handed to Config.ExternalClientHello: the one a plain
+// zcrypto TLS 1.2 client sends (taken from a run of the first configuration).
+var (
+	externalOnce sync.Once
+	externalCH   []byte
+)
+
+func externalClientHello() []byte {
+	externalOnce.Do(func() {
+		cf := confs(false)[0]
+		o := runOnce(&cf, nil, 0)
+		recs := tlsx.ParseRecords(o.streams[0])
+		if len(recs) > 0 && recs[0].Type == 22 {
+			externalCH = append([]byte(nil), recs[0].Payload...)
+		}
+	})
+	return externalCH
+}
+
+func mkConfigs(cf *conf, seed string) (*tls.Config, *tls.Config) {
 	id := tlsx.ServerIdentity(cf.key)
 	cc, sc := tlsx.BaseConfigs(id, cf.name+seed)
 	cc.MinVersion, cc.MaxVersion = cf.vers, cf.vers
@@ -114,6 +148,31 @@ func mkConfigs(cf conf, seed string) (*tls.Config, *tls.Config) {
 		cc.SignedCertificateTimestampExt = true
 		cc.ForceSessionTicketExt = true
 		cc.NextProtos = []string{"h2", "http/1.1"}
+		sc.NextProtos = []string{"http/1.1"}
+	}
+	switch cf.feature {
+	case "external-ch":
+		cc.ExternalClientHello = append([]byte(nil), externalClientHello()...)
+	case "fingerprint":
+		// the handshake rewrites the fingerprint's Extensions slice and the Config in place: fresh per run
+		cc.ClientFingerprintConfiguration = &tls.ClientFingerprintConfiguration{
+			HandshakeVersion:   tls.VersionTLS12,
+			CipherSuites:       []uint16{tls.TLS_ECDHE_RSA_WITH_AES_128_GCM_SHA256, tls.TLS_RSA_WITH_AES_128_GCM_SHA256},
+			CompressionMethods: []uint8{0},
+			Extensions: []tls.ClientExtension{
+				&tls.SNIExtension{Autopopulate: true},
+				&tls.SupportedCurvesExtension{Curves: []tls.CurveID{tls.CurveP256, tls.CurveP384}},
+				&tls.PointFormatExtension{Formats: []uint8{0}},
+				// (the extension's CheckImplemented only knows the RSA/DSA wire values: ECDSA (3) is refused)
+				&tls.SignatureAlgorithmExtension{SignatureAndHashes: []uint16{0x0401, 0x0501, 0x0601, 0x0201}},
+				&tls.SessionTicketExtension{Autopopulate: true},
+				&tls.StatusRequestExtension{},
+				&tls.SCTExtension{},
+				&tls.ALPNExtension{Protocols: []string{"http/1.1"}},
+				&tls.SecureRenegotiationExtension{},
+			},
+		}
+		cc.CertsOnly = true
 		sc.NextProtos = []string{"http/1.1"}
 	}
 	if cf.resume {
@@ -160,7 +219,28 @@ func exchange(s *tlsx.Session, pan *[]string, pmu *sync.Mutex) {
 	wg.Wait()
 }
 
-func runOnce(cf conf, edits []tlsx.Edit, seg int) outcome {
+// postMortem: the inspection calls of both endpoints must not panic whatever state the connection died in.
+func postMortem(s *tlsx.Session, o *outcome) {
+	for _, side := range []struct {
+		who string
+		c   *tls.Conn
+	}{{"client", s.Client.Conn}, {"server", s.Server.Conn}} {
+		side := side
+		if p, msg, site := ev.Try(func() {
+			_ = side.c.ConnectionState()
+			l := side.c.GetHandshakeLog()
+			if _, err := json.Marshal(l); err != nil {
+				panic("json.Marshal(handshake log): " + err.Error())
+			}
+			_ = side.c.OCSPResponse()
+			side.c.Close()
+		}); p {
+			o.panics = append(o.panics, fmt.Sprintf("%s post-mortem (ConnectionState/GetHandshakeLog/json): %s @ %s", side.who, ev.MsgClass(msg), site))
+		}
+	}
+}
+
+func runOnce(cf *conf, edits []tlsx.Edit, seg int) outcome {
 	var o outcome
 	var pmu sync.Mutex
 	cc, sc := mkConfigs(cf, "")
@@ -186,30 +266,12 @@ func runOnce(cf conf, edits []tlsx.Edit, seg int) outcome {
 	if s.Server.Panic != "" {
 		o.panics = append(o.panics, "server Handshake: "+ev.MsgClass(s.Server.Panic))
 	}
-	if s.Client.OKDone && s.Server.OKDone {
-		exchange(s, &o.panics, &pmu)
-	} else if s.Client.OKDone || s.Server.OKDone {
-		// one side believes the handshake completed: let it try to use the connection
+	if s.Client.OKDone || s.Server.OKDone {
+		// also when only one side believes the handshake completed: let it try to use the connection
 		exchange(s, &o.panics, &pmu)
 	}
 	s.Close()
-	for _, side := range []struct {
-		who string
-		c   *tls.Conn
-	}{{"client", s.Client.Conn}, {"server", s.Server.Conn}} {
-		side := side
-		if p, msg, site := ev.Try(func() {
-			_ = side.c.ConnectionState()
-			l := side.c.GetHandshakeLog()
-			if _, err := json.Marshal(l); err != nil {
-				panic("json.Marshal(handshake log): " + err.Error())
-			}
-			_ = side.c.OCSPResponse()
-			side.c.Close()
-		}); p {
-			o.panics = append(o.panics, fmt.Sprintf("%s post-mortem (ConnectionState/GetHandshakeLog/json): %s @ %s", side.who, ev.MsgClass(msg), site))
-		}
-	}
+	postMortem(s, &o)
 	o.stalled = s.Net.Stalled
 	o.streams[0], o.streams[1] = s.Net.Stream(tlsx.C2S), s.Net.Stream(tlsx.S2C)
 	ce, se := "ok", "ok"
@@ -224,20 +286,31 @@ func runOnce(cf conf, edits []tlsx.Edit, seg int) outcome {
 }
 
 type job struct {
-	cf    conf
-	edits []tlsx.Edit
-	seg   int
-	raw   *rawJob
+	idx     int
+	cf      *conf
+	edits   []tlsx.Edit
+	seg     int
+	raw     *rawJob
+	kcf     *kconf
+	k       *kcase
+	special string
 }
 
 type rawJob struct {
 	role   string // "client" or "server": the real endpoint under test
 	stream []byte
+	conf   string // "": default configuration; else the configuration whose genuine transcript prefix the stream starts with
+	ssl3   bool   // server accepts SSLv3 (MinVersion = VersionSSL30)
 }
 
 func (j job) describe() map[string]any {
-	if j.raw != nil {
-		return map[string]any{"raw_peer_against": j.raw.role, "stream_hex": fmt.Sprintf("%x", j.raw.stream)}
+	switch {
+	case j.special != "":
+		return map[string]any{"special": j.special}
+	case j.k != nil:
+		return map[string]any{"keyed_config": j.kcf.name, "keyed": j.k}
+	case j.raw != nil:
+		return map[string]any{"raw_peer_against": j.raw.role, "stream_hex": fmt.Sprintf("%x", j.raw.stream), "raw_config": j.raw.conf, "raw_ssl3": j.raw.ssl3}
 	}
 	var es []string
 	for _, e := range j.edits {
@@ -246,12 +319,30 @@ func (j job) describe() map[string]any {
 	return map[string]any{"config": j.cf.name, "edits": es, "read_segment": j.seg, "edits_raw": j.edits}
 }
 
+func confByName(name string) (*conf, bool) {
+	for _, cf := range confs(true) {
+		if cf.name == name {
+			cf := cf
+			return &cf, true
+		}
+	}
+	return nil, false
+}
+
 // runRaw: real endpoint against a peer that sends `stream` and closes.
 func runRaw(r *rawJob) outcome {
 	var o outcome
 	cp, sp, n := tlsx.NewPipe()
-	id := tlsx.ServerIdentity("p256")
-	cc, sc := tlsx.BaseConfigs(id, "raw")
+	var cc, sc *tls.Config
+	if cf, ok := confByName(r.conf); ok {
+		cc, sc = mkConfigs(cf, "")
+	} else {
+		id := tlsx.ServerIdentity("p256")
+		cc, sc = tlsx.BaseConfigs(id, "raw")
+	}
+	if r.ssl3 {
+		sc.MinVersion = tls.VersionSSL30
+	}
 	var conn *tls.Conn
 	var peer io.ReadWriteCloser
 	if r.role == "client" {
@@ -279,13 +370,60 @@ func runRaw(r *rawJob) outcome {
 		o.panics = append(o.panics, fmt.Sprintf("%s vs raw peer: %s @ %s", r.role, ev.MsgClass(msg), site))
 	}
 	peer.Close()
+	pre := "raw:"
+	if r.conf != "" {
+		pre = "raw+prefix:"
+	}
 	if err != nil {
-		o.cls = "raw:" + r.role + ":" + ev.MsgClass(firstWords(err.Error(), 6))
+		o.cls = pre + r.role + ":" + ev.MsgClass(firstWords(err.Error(), 6))
 	} else {
-		o.cls = "raw:" + r.role + ":handshake-ok"
+		o.cls = pre + r.role + ":handshake-ok"
 	}
 	return o
 }
+
+// runSpecial: single configurations outside the menus.
+func runSpecial(name string) outcome {
+	var o outcome
+	id := tlsx.ServerIdentity("p256")
+	cc, sc := tlsx.BaseConfigs(id, "special-"+name)
+	switch name {
+	case "ssl30-client-only": // VersionSSL30 is still an exported constant (and minVersion), but no longer in supportedVersions
+		cc.MinVersion, cc.MaxVersion = tls.VersionSSL30, tls.VersionSSL30
+	case "ssl30-both":
+		cc.MinVersion, cc.MaxVersion = tls.VersionSSL30, tls.VersionSSL30
+		sc.MinVersion, sc.MaxVersion = tls.VersionSSL30, tls.VersionSSL30
+	case "ssl30-server-only":
+		sc.MinVersion, sc.MaxVersion = tls.VersionSSL30, tls.VersionSSL30
+	case "ssl30-to-tls10-client":
+		cc.MinVersion, cc.MaxVersion = tls.VersionSSL30, tls.VersionTLS10
+		sc.MinVersion = tls.VersionSSL30
+	}
+	var pmu sync.Mutex
+	s := tlsx.Handshake(cc, sc, nil)
+	if s.Client.Panic != "" {
+		o.panics = append(o.panics, "client Handshake: "+ev.MsgClass(s.Client.Panic))
+	}
+	if s.Server.Panic != "" {
+		o.panics = append(o.panics, "server Handshake: "+ev.MsgClass(s.Server.Panic))
+	}
+	if s.Client.OKDone || s.Server.OKDone {
+		exchange(s, &o.panics, &pmu)
+	}
+	s.Close()
+	postMortem(s, &o)
+	ce, se := "ok", "ok"
+	if s.Client.Err != nil {
+		ce = "err"
+	}
+	if s.Server.Err != nil {
+		se = "err"
+	}
+	o.cls = fmt.Sprintf("special %s: client=%s server=%s", name, ce, se)
+	return o
+}
+
+var specials = []string{"ssl30-client-only", "ssl30-both", "ssl30-server-only", "ssl30-to-tls10-client"}
 
 func firstWords(s string, n int) string {
 	f := strings.Fields(s)
@@ -295,39 +433,45 @@ func firstWords(s string, n int) string {
 	return strings.Join(f, " ")
 }
 
-// faultMenu builds every single fault for one configuration from its baseline streams.
-func faultMenu(cf conf, base outcome, thorough bool) []job {
-	var jobs []job
-	add := func(seg int, e ...tlsx.Edit) { jobs = append(jobs, job{cf: cf, edits: e, seg: seg}) }
-	inserts := [][]byte{
-		{21, 3, 3, 0, 2, 2, 40},                // fatal alert handshake_failure
-		{21, 3, 3, 0, 2, 1, 0},                 // warning close_notify
-		{21, 3, 3, 0, 2, 1, 100},               // warning no_renegotiation
-		{20, 3, 3, 0, 1, 1},                    // change_cipher_spec
-		{23, 3, 3, 0, 3, 'a', 'b', 'c'},        // application data
-		{99, 3, 3, 0, 1, 0},                    // unknown record type
-		{22, 3, 3, 0, 4, 0, 0, 0, 0},           // hello_request
-		{22, 3, 3, 0, 4, 24, 0, 0, 1},          // key_update header claiming 1 byte (incomplete)
-		{24, 3, 3, 0, 3, 1, 0xff, 0xff},        // heartbeat request with huge payload length
-		{22, 3, 3, 0, 0},                       // empty handshake record
-		{23, 3, 3, 0, 0},                       // empty application data record
-		{22, 3, 3, 0x48, 0x01},                 // over-long length, no body
-		{0x80, 0x03, 0x01, 0x00, 0x01},         // SSLv2-looking header
-	}
+var wireInserts = [][]byte{
+	{21, 3, 3, 0, 2, 2, 40},         // fatal alert handshake_failure
+	{21, 3, 3, 0, 2, 1, 0},          // warning close_notify
+	{21, 3, 3, 0, 2, 1, 100},        // warning no_renegotiation
+	{20, 3, 3, 0, 1, 1},             // change_cipher_spec
+	{23, 3, 3, 0, 3, 'a', 'b', 'c'}, // application data
+	{99, 3, 3, 0, 1, 0},             // unknown record type
+	{22, 3, 3, 0, 4, 0, 0, 0, 0},    // hello_request
+	{22, 3, 3, 0, 4, 24, 0, 0, 1},   // key_update header claiming 1 byte (incomplete)
+	{24, 3, 3, 0, 3, 1, 0xff, 0xff}, // heartbeat request with huge payload length
+	{22, 3, 3, 0, 0},                // empty handshake record
+	{23, 3, 3, 0, 0},                // empty application data record
+	{22, 3, 3, 0x48, 0x01},          // over-long length, no body
+	{0x80, 0x03, 0x01, 0x00, 0x01},  // SSLv2-looking header
+}
+
+// faultMenu builds every single wire fault for one configuration from its baseline streams.
+func faultMenu(cf *conf, base outcome, thorough bool, emit func(job)) {
+	add := func(seg int, e ...tlsx.Edit) { emit(job{cf: cf, edits: e, seg: seg}) }
+	inserts := wireInserts
 	for d := tlsx.C2S; d <= tlsx.S2C; d++ {
 		stream := base.streams[d]
 		recs := tlsx.ParseRecords(stream)
+		head, tail, stride := 96, 24, 1
+		if !thorough {
+			stride = 5
+			if cf.feature != "" && d == tlsx.S2C {
+				// quick tier: these configurations differ from the others in how the ClientHello is built; the server
+				// flight is processed by the same code as in the configurations above, so it is sampled more coarsely
+				head, tail, stride = 24, 8, 25
+			}
+		}
 		inHeaderish := func(o int) bool {
 			for _, r := range recs {
-				if o >= r.Off && o < r.Off+5+96 || (o >= r.End()-24 && o < r.End()) {
+				if o >= r.Off && o < r.Off+5+head || (o >= r.End()-tail && o < r.End()) {
 					return true
 				}
 			}
 			return false
-		}
-		stride := 1
-		if !thorough {
-			stride = 5
 		}
 		for o := 0; o < len(stream); o++ {
 			if !inHeaderish(o) && o%stride != 0 {
@@ -425,17 +569,15 @@ func faultMenu(cf conf, base outcome, thorough bool) []job {
 	for _, seg := range []int{1, 2, 3, 5, 7, 16, 100, 1000} {
 		add(seg)
 	}
-	return jobs
 }
 
-func rawJobs(thorough bool) []job {
-	var jobs []job
+func rawJobs(thorough bool, lazy func(func() job)) {
 	for _, role := range []string{"client", "server"} {
-		jobs = append(jobs, job{raw: &rawJob{role, nil}})
+		lazy(func() job { return job{raw: &rawJob{role: role}} })
 		for a := 0; a < 256; a++ {
-			jobs = append(jobs, job{raw: &rawJob{role, []byte{byte(a)}}})
+			lazy(func() job { return job{raw: &rawJob{role: role, stream: []byte{byte(a)}}} })
 			for b := 0; b < 256; b++ {
-				jobs = append(jobs, job{raw: &rawJob{role, []byte{byte(a), byte(b)}}})
+				lazy(func() job { return job{raw: &rawJob{role: role, stream: []byte{byte(a), byte(b)}}} })
 			}
 		}
 		al := []byte{0x00, 0x01, 0x03, 0x16, 0x80, 0xff}
@@ -443,7 +585,7 @@ func rawJobs(thorough bool) []job {
 		rec = func(p []byte) {
 			if len(p) == 5 {
 				for _, tail := range [][]byte{nil, {0}, {1, 0, 0, 0}, {2, 0, 0, 1, 0}} {
-					jobs = append(jobs, job{raw: &rawJob{role, append(append([]byte{}, p...), tail...)}})
+					lazy(func() job { return job{raw: &rawJob{role: role, stream: append(append([]byte{}, p...), tail...)}} })
 				}
 				return
 			}
@@ -453,154 +595,291 @@ func rawJobs(thorough bool) []job {
 		}
 		rec(nil)
 	}
-	return jobs
 }
 
-var _ = x509.NewCertPool
+// rawInserts: what a raw peer appends to a genuine transcript prefix before it closes.
+func rawInserts() [][]byte {
+	out := append([][]byte(nil), wireInserts...)
+	out = append(out, nil) // nothing: EOF right at the record boundary
+	for _, part := range [][]byte{{22}, {22, 3}, {22, 3, 3}, {22, 3, 3, 0}, {23, 3, 3, 0, 20, 1, 2, 3}, {21, 3, 3, 0, 2, 2}} {
+		out = append(out, part) // record cut inside / right after its header
+	}
+	for _, t := range hsTypes {
+		out = append(out, append([]byte{22, 3, 3, 0, 4}, hsMsg(t, 0, nil)...))
+		out = append(out, append([]byte{22, 3, 3, 0, 8}, hsMsg(t, 4, []byte{0, 0, 0, 0})...))
+	}
+	out = append(out, []byte{22, 3, 3, 0, 4, 1, 0xff, 0xff, 0xff}) // ClientHello header claiming 16 MiB
+	out = append(out, []byte{21, 3, 3, 0, 2, 1, 100, 21, 3, 3, 0, 2, 1, 100, 21, 3, 3, 0, 2, 1, 100})
+	return out
+}
 
-func main() {
-	ev.Main("C32", "model_checking", func(c *ev.Ctx) {
-		thorough := !c.Quick()
-		c.Rule("for each configuration: baseline transcript of real client<->real server (handshake + data phase), then EVERY fault of the menu {xor 01/80, set 00/ff at each offset (quick: every offset in the first 96 / last 24 bytes of each record, stride 5 elsewhere), truncate, drop/dup/swap record, 13 inserted records at every boundary, record length/type/version values, handshake type/length values, record split/coalesce, read segmentation} as a single fault; plus every 0,1,2-byte stream and 6^5 record headers x 4 tails from a raw peer against each role. A case is non-trivial when the fault was reached by the stream (edit applied); distinct = distinct (config,fault).")
-		c.Assume("transport blocking is detected structurally (both endpoints parked in Read with nothing in flight => transport closes both directions)",
-			"a 20 s wall-clock net only marks suspects, which are re-run 3x sequentially before being reported",
-			"deterministic Rand/Time: the baseline offsets are stable across runs (verified per configuration by running the baseline twice)")
-
-		if c.Replay != nil {
-			var w struct {
-				Config   string      `json:"config"`
-				EditsRaw []tlsx.Edit `json:"edits_raw"`
-				Seg      int         `json:"read_segment"`
-				RawRole  string      `json:"raw_peer_against"`
-				Stream   string      `json:"stream_hex"`
-			}
-			if err := json.Unmarshal(c.Replay, &w); err != nil {
-				c.Broken("bad witness: %v", err)
-			}
-			var o outcome
-			if w.RawRole != "" {
-				var b []byte
-				fmt.Sscanf(w.Stream, "%x", &b)
-				o = runRaw(&rawJob{w.RawRole, b})
-			} else {
-				found := false
-				for _, cf := range confs(true) {
-					if cf.name == w.Config {
-						o = runOnce(cf, w.EditsRaw, w.Seg)
-						found = true
-					}
-				}
-				if !found {
-					c.Broken("unknown config %q", w.Config)
-				}
-			}
-			for _, p := range o.panics {
-				c.Violation("panic: "+p, c.Replay)
-			}
-			c.States.Add(1)
-			c.Transitions.Add(1)
-			fmt.Println("replayed:", o.cls, o.panics)
-			return
+// rawPrefixJobs: the deterministic endpoints make every record-boundary prefix of the peer's baseline stream a
+// genuine continuation (a valid ServerHello flight for the client, a valid ClientHello / second flight for the
+// server, protected records included); the raw peer sends prefix + insert at once and closes.
+func rawPrefixJobs(cf *conf, base outcome, lazy func(func() job)) {
+	if cf.resume {
+		return // the raw harness does not prime a session
+	}
+	ins := rawInserts()
+	for _, role := range []string{"client", "server"} {
+		d := tlsx.S2C
+		if role == "server" {
+			d = tlsx.C2S
 		}
-
-		var jobs []job
-		for _, cf := range confs(thorough) {
-			b1 := runOnce(cf, nil, 0)
-			b2 := runOnce(cf, nil, 0)
-			if string(b1.streams[0]) != string(b2.streams[0]) || string(b1.streams[1]) != string(b2.streams[1]) {
-				c.Broken("baseline transcript of %s is not reproducible", cf.name)
-			}
-			if b1.cls != "client=ok server=ok stalled=false" || len(b1.panics) > 0 {
-				c.Broken("baseline of %s did not complete: %s %v", cf.name, b1.cls, b1.panics)
-			}
-			fj := faultMenu(cf, b1, thorough)
-			c.Set("faults_"+cf.name, map[string]any{"faults": len(fj), "c2s_bytes": len(b1.streams[0]), "s2c_bytes": len(b1.streams[1]),
-				"c2s_records": len(tlsx.ParseRecords(b1.streams[0])), "s2c_records": len(tlsx.ParseRecords(b1.streams[1]))})
-			jobs = append(jobs, fj...)
-			c.Traces.Add(2)
-		}
-		rj := rawJobs(thorough)
-		jobs = append(jobs, rj...)
-		c.Set("raw_peer_streams", len(rj))
-		c.Set("configurations", len(confs(thorough)))
-		c.Set("total_cases", len(jobs))
-
-		var suspects []int
-		var smu sync.Mutex
-		hists := make([]ev.Hist, c.Workers())
-		for i := range hists {
-			hists[i] = ev.Hist{}
-		}
-		var records atomic.Int64
-		exec := func(j job, limit time.Duration) (outcome, bool) {
-			done := make(chan outcome, 1)
-			go func() {
-				if j.raw != nil {
-					done <- runRaw(j.raw)
-				} else {
-					done <- runOnce(j.cf, j.edits, j.seg)
-				}
-			}()
-			t := time.NewTimer(limit)
-			defer t.Stop()
-			select {
-			case o := <-done:
-				return o, true
-			case <-t.C:
-				return outcome{}, false
+		stream := base.streams[d]
+		for _, r := range tlsx.ParseRecords(stream) {
+			for _, in := range ins {
+				lazy(func() job {
+					s := append(append([]byte(nil), stream[:r.End()]...), in...)
+					return job{raw: &rawJob{role: role, stream: s, conf: cf.name}}
+				})
 			}
 		}
-		complete := c.Parallel(len(jobs), func(w, i int) {
-			j := jobs[i]
-			o, ok := exec(j, 20*time.Second)
-			if !ok {
-				smu.Lock()
-				suspects = append(suspects, i)
-				smu.Unlock()
-				return
+	}
+}
+
+// ---------------------------------------------------------------- job list (deterministic; every process rebuilds it)
+
+type meta struct {
+	Faults    map[string]any      `json:"faults"`
+	KeyedBase map[string][]string `json:"keyed_base"`
+	Classes   []string            `json:"classes"` // config + " | " + message class of every protected baseline record
+	NWire     int                 `json:"n_wire"`
+	NRaw      int                 `json:"n_raw"`
+	NPrefix   int                 `json:"n_prefix"`
+	NKeyed    int                 `json:"n_keyed"`
+	NSpecial  int                 `json:"n_special"`
+	Total     int                 `json:"total"`
+	Baselines int64               `json:"baselines"`
+	Broken    string              `json:"broken,omitempty"`
+}
+
+// buildJobs enumerates every case; only those with keep(index) are retained (all workers enumerate the same list).
+func buildJobs(thorough bool, keep func(i int) bool) ([]job, meta) {
+	m := meta{Faults: map[string]any{}, KeyedBase: map[string][]string{}}
+	var jobs []job
+	n := 0
+	emit := func(j job) {
+		if keep != nil && keep(n) {
+			j.idx = n
+			jobs = append(jobs, j)
+		}
+		n++
+	}
+	lazy := func(mk func() job) {
+		if keep != nil && keep(n) {
+			j := mk()
+			j.idx = n
+			jobs = append(jobs, j)
+		}
+		n++
+	}
+	broken := func(format string, a ...any) {
+		if m.Broken == "" {
+			m.Broken = fmt.Sprintf(format, a...)
+		}
+	}
+	cfs := confs(thorough)
+	for ci := range cfs {
+		cf := &cfs[ci]
+		b1 := runOnce(cf, nil, 0)
+		b2 := runOnce(cf, nil, 0)
+		m.Baselines += 2
+		if string(b1.streams[0]) != string(b2.streams[0]) || string(b1.streams[1]) != string(b2.streams[1]) {
+			broken("baseline transcript of %s is not reproducible", cf.name)
+		}
+		if b1.cls != "client=ok server=ok stalled=false" || len(b1.panics) > 0 {
+			broken("baseline of %s did not complete: %s %v", cf.name, b1.cls, b1.panics)
+		}
+		n0 := n
+		faultMenu(cf, b1, thorough, emit)
+		n1 := n
+		rawPrefixJobs(cf, b1, lazy)
+		m.Faults[cf.name] = map[string]any{"faults": n1 - n0, "raw_prefix_streams": n - n1, "c2s_bytes": len(b1.streams[0]), "s2c_bytes": len(b1.streams[1]),
+			"c2s_records": len(tlsx.ParseRecords(b1.streams[0])), "s2c_records": len(tlsx.ParseRecords(b1.streams[1]))}
+		m.NWire += n1 - n0
+		m.NPrefix += n - n1
+	}
+	kcfs := kconfs(thorough)
+	for ki := range kcfs {
+		kcf := &kcfs[ki]
+		b1 := runKeyed(*kcf, nil)
+		b2 := runKeyed(*kcf, nil)
+		m.Baselines += 2
+		if b1.desync != "" {
+			broken("keyed baseline of %s: the proxy lost the key schedule: %s", kcf.name, b1.desync)
+		}
+		if b1.cls != "keyed client=ok server=ok stalled=false" || len(b1.panics) > 0 || b1.dataErr[0] != "" || (b1.dataErr[1] != "" && b1.dataErr[1] != "EOF") {
+			broken("keyed baseline of %s (every record re-sealed by the proxy) did not complete: %s %v hs=%q data=%q", kcf.name, b1.cls, b1.panics, b1.hsErr, b1.dataErr)
+		}
+		if !sameSeen(b1.seen, b2.seen) {
+			broken("keyed baseline of %s is not reproducible", kcf.name)
+		}
+		if b1.vers != kcf.vers || (len(kcf.suites) == 1 && b1.suite != kcf.suites[0]) {
+			broken("keyed baseline of %s negotiated %04x/%04x", kcf.name, b1.vers, b1.suite)
+		}
+		m.KeyedBase[kcf.name] = seenSummary(b1.seen)
+		cls := map[string]bool{}
+		n0 := n
+		keyedMenu(*kcf, b1.seen, thorough, func(k kcase) {
+			cls[k.Class] = true
+			if keep != nil && keep(n) {
+				kk := k
+				jobs = append(jobs, job{idx: n, kcf: kcf, k: &kk})
 			}
-			c.States.Add(1)
-			c.Traces.Add(1)
-			records.Add(int64(len(tlsx.ParseRecords(o.streams[0])) + len(tlsx.ParseRecords(o.streams[1]))))
-			hists[w][o.cls]++
-			for _, p := range o.panics {
-				c.Violation("panic: "+p, j.describe())
-			}
-			if i%9973 == 0 {
-				c.Sample(map[string]any{"case": j.describe(), "outcome": o.cls})
-			}
+			n++
 		})
-		for _, h := range hists {
-			c.Merge(h)
+		for c := range cls {
+			m.Classes = append(m.Classes, kcf.name+" | "+c)
 		}
-		if !complete {
-			c.Incomplete(fmt.Sprintf("time budget reached after %d of %d cases", c.States.Load(), len(jobs)))
+		m.NKeyed += n - n0
+	}
+	sort.Strings(m.Classes)
+	n0 := n
+	rawJobs(thorough, lazy)
+	m.NRaw = n - n0
+	// SSLv3: a raw SSLv3 ClientHello (the TLS 1.0 one with both version fields rewritten) against a server that allows SSLv3
+	n0 = n
+	if o := runOnce(&cfs[3], nil, 0); len(o.streams[0]) > 11 {
+		recs := tlsx.ParseRecords(o.streams[0])
+		ch := append([]byte(nil), o.streams[0][:recs[0].End()]...)
+		ch[1], ch[2], ch[9], ch[10] = 3, 0, 3, 0
+		for _, in := range rawInserts() {
+			emit(job{raw: &rawJob{role: "server", stream: append(append([]byte(nil), ch...), in...), ssl3: true}})
 		}
-		c.Transitions.Add(records.Load())
-		c.Evaluations.Store(c.States.Load())
-		c.Distinct.Store(c.States.Load())
-		// suspects: re-run sequentially, 3 times, 60 s each
-		for _, i := range suspects {
-			j := jobs[i]
-			hung := 0
-			for k := 0; k < 3; k++ {
-				if _, ok := exec(j, 60*time.Second); !ok {
-					hung++
-				}
+	}
+	for _, s := range specials {
+		emit(job{special: s})
+	}
+	m.NSpecial = n - n0
+	m.Total = n
+	return jobs, m
+}
+
+// ---------------------------------------------------------------- execution and aggregation (worker side)
+
+type violRec struct {
+	Sig     string `json:"sig"`
+	Witness any    `json:"witness"`
+}
+
+type result struct {
+	Hist       map[string]int64    `json:"hist"`
+	States     int64               `json:"states"`
+	Records    int64               `json:"records"`
+	Viol       []violRec           `json:"viol"`
+	Incomplete []string            `json:"incomplete"`
+	Samples    []any               `json:"samples"`
+	Reached    map[string][2]int64 `json:"reached"` // config | class -> [cases delivered, cases whose edited record authenticated]
+	Suspects   int                 `json:"suspects"`
+	Stopped    bool                `json:"stopped"`
+	Done       bool                `json:"done"`
+}
+
+func newResult() *result {
+	return &result{Hist: map[string]int64{}, Reached: map[string][2]int64{}}
+}
+
+func (r *result) merge(o *result) {
+	for k, v := range o.Hist {
+		r.Hist[k] += v
+	}
+	r.States += o.States
+	r.Records += o.Records
+	r.Viol = append(r.Viol, o.Viol...)
+	r.Incomplete = append(r.Incomplete, o.Incomplete...)
+	r.Samples = append(r.Samples, o.Samples...)
+	for k, v := range o.Reached {
+		c := r.Reached[k]
+		c[0] += v[0]
+		c[1] += v[1]
+		r.Reached[k] = c
+	}
+	r.Suspects += o.Suspects
+	r.Stopped = r.Stopped || o.Stopped
+}
+
+type jobOut struct {
+	o  outcome
+	ko *kout
+}
+
+func runJob(j job) jobOut {
+	switch {
+	case j.special != "":
+		return jobOut{o: runSpecial(j.special)}
+	case j.k != nil:
+		ko := runKeyed(*j.kcf, j.k)
+		return jobOut{o: ko.outcome, ko: &ko}
+	case j.raw != nil:
+		return jobOut{o: runRaw(j.raw)}
+	}
+	return jobOut{o: runOnce(j.cf, j.edits, j.seg)}
+}
+
+// exec runs a case under a wall-clock net (which never yields a verdict by itself).
+func exec(j job, limit time.Duration) (jobOut, bool) {
+	done := make(chan jobOut, 1)
+	go func() { done <- runJob(j) }()
+	t := time.NewTimer(limit)
+	defer t.Stop()
+	select {
+	case o := <-done:
+		return o, true
+	case <-t.C:
+		return jobOut{}, false
+	}
+}
+
+func (r *result) record(j job, jo jobOut) {
+	o := jo.o
+	r.States++
+	r.Records += int64(len(tlsx.ParseRecords(o.streams[0])) + len(tlsx.ParseRecords(o.streams[1])))
+	r.Hist[o.cls]++
+	for _, p := range o.panics {
+		r.Viol = append(r.Viol, violRec{"panic: " + p, j.describe()})
+	}
+	if jo.ko != nil {
+		r.Records += int64(jo.ko.delivered[0] + jo.ko.delivered[1])
+		reached, cls := receiverVerdict(j.k, jo.ko)
+		r.Hist["keyed "+cls]++
+		if jo.ko.desync != "" {
+			r.Hist["keyed proxy lost the key schedule after the edit (rest passed through verbatim)"]++
+		}
+		if jo.ko.applied && len(j.k.Repl) > 0 {
+			key := j.kcf.name + " | " + j.k.Class
+			c := r.Reached[key]
+			c[0]++
+			if reached {
+				c[1]++
 			}
-			if hung == 3 {
-				buf := make([]byte, 1<<16)
-				buf = buf[:runtime.Stack(buf, true)]
-				w := j.describe()
-				w["goroutines"] = firstZcryptoFrames(string(buf))
-				cls := "handshake/data call did not return after the transport was closed"
-				c.Violation(cls, w)
-			} else {
-				c.Incomplete(fmt.Sprintf("case %d exceeded 20 s under load but completed when re-run (not a verdict)", i))
+			r.Reached[key] = c
+		}
+	}
+	if j.idx%9973 == 0 {
+		r.Samples = append(r.Samples, map[string]any{"case": j.describe(), "outcome": o.cls})
+	}
+}
+
+func (r *result) rerunSuspects(suspects []job) {
+	for _, j := range suspects {
+		hung := 0
+		for k := 0; k < 3; k++ {
+			if _, ok := exec(j, 60*time.Second); !ok {
+				hung++
 			}
 		}
-		c.Set("suspects_rerun", len(suspects))
-	})
+		if hung == 3 {
+			buf := make([]byte, 1<<16)
+			buf = buf[:runtime.Stack(buf, true)]
+			w := j.describe()
+			w["goroutines"] = firstZcryptoFrames(string(buf))
+			r.Viol = append(r.Viol, violRec{"handshake/data call did not return after the transport was closed", w})
+		} else {
+			r.Incomplete = append(r.Incomplete, fmt.Sprintf("case %d exceeded 20 s under load but completed when re-run (not a verdict)", j.idx))
+		}
+	}
+	r.Suspects += len(suspects)
 }
 
 func firstZcryptoFrames(dump string) []string {
@@ -611,4 +890,52 @@ func firstZcryptoFrames(dump string) []string {
 		}
 	}
 	return out
+}
+
+// jobFromWitness rebuilds a case from the JSON that describe() produced.
+func jobFromWitness(raw json.RawMessage) (job, error) {
+	var w struct {
+		Config   string      `json:"config"`
+		EditsRaw []tlsx.Edit `json:"edits_raw"`
+		Seg      int         `json:"read_segment"`
+		RawRole  string      `json:"raw_peer_against"`
+		Stream   string      `json:"stream_hex"`
+		RawConf  string      `json:"raw_config"`
+		RawSSL3  bool        `json:"raw_ssl3"`
+		KConf    string      `json:"keyed_config"`
+		Keyed    *kcase      `json:"keyed"`
+		Special  string      `json:"special"`
+	}
+	if err := json.Unmarshal(raw, &w); err != nil {
+		return job{}, err
+	}
+	switch {
+	case w.Special != "":
+		return job{special: w.Special}, nil
+	case w.KConf != "":
+		for _, kcf := range kconfs(true) {
+			if kcf.name == w.KConf && w.Keyed != nil {
+				kcf := kcf
+				return job{kcf: &kcf, k: w.Keyed}, nil
+			}
+		}
+		return job{}, fmt.Errorf("unknown keyed config %q", w.KConf)
+	case w.RawRole != "":
+		var b []byte
+		fmt.Sscanf(w.Stream, "%x", &b)
+		return job{raw: &rawJob{role: w.RawRole, stream: b, conf: w.RawConf, ssl3: w.RawSSL3}}, nil
+	}
+	cf, ok := confByName(w.Config)
+	if !ok {
+		return job{}, fmt.Errorf("unknown config %q", w.Config)
+	}
+	return job{cf: cf, edits: w.EditsRaw, seg: w.Seg}, nil
+}
+
+func main() {
+	if spec := os.Getenv("C32_WORKER"); spec != "" {
+		workerMain(spec)
+		return
+	}
+	ev.Main("C32", "model_checking", supervise)
 }
